@@ -89,3 +89,19 @@ def host_objects(interp, model, c):
     if gobj is None:
         raise AnalysisError('the public parser constructor does not create a grammar parser object (anchor vanished)')
     return parser, gobj
+
+
+def cell_opaque(model):
+    """Summaries of the label<->index converters on symbolic input (their internals are C19's subject):
+    an uninterpreted function of the argument."""
+    out = {}
+    for m in model.modules.values():
+        if 'extract_label' in m.functions:
+            for name in ('column_label_to_index', 'row_label_to_index', 'column_index_to_label', 'row_index_to_label'):
+                if name in m.functions:
+                    def summ(interp, args, kwargs, name=name):
+                        if all(isinstance(a, Const) for a in args):
+                            return NotImplemented
+                        return Atom(name, args, 'int' if name.endswith('to_index') else 'str')
+                    out[(m.name, name)] = summ
+    return out
